@@ -25,6 +25,7 @@ import (
 type LRecip struct {
 	Native  *world.Key `json:"native,omitempty"`  // real recipient (x, e, r: no labels; s: random label)
 	Variant string     `json:"variant,omitempty"` // sim-owned: "plain" (Recipient only), "nil", "empty", "list"; "plugin": a real plugin.Recipient talking to a scripted plugin (labels sent as a labels stanza)
+	Wrapped bool       `json:"wrapped,omitempty"` // native: the recipient is reached through a struct that embeds it (all its methods, another concrete type)
 	ViaID   bool       `json:"via_id,omitempty"`  // plugin: the recipient is plugin.NewIdentity(...).Recipient() (encrypting to a plugin identity)
 	Script  string     `json:"script,omitempty"`  // plugin: "ok" | "stanza+error" | "error+stanza" | "error" | "dies" (what the plugin answers)
 	Labels  []string   `json:"labels,omitempty"`  // order as returned
@@ -149,6 +150,9 @@ func (sp *simPlugin) Read(p []byte) (int, error) {
 	return sp.out.Read(p)
 }
 
+// embeddedScrypt is a caller's own type around a passphrase recipient: same methods, other concrete type.
+type embeddedScrypt struct{ *age.ScryptRecipient }
+
 type C11 struct{}
 
 func (C11) ID() string { return "C11" }
@@ -171,7 +175,7 @@ func (C11) Meta() core.Meta {
 		Real:        []string{"filippo.io/age Encrypt (label comparison, wrap loop, header marshal)", "native recipients", "plugin.Recipient (client side of the plugin protocol)"},
 		Stub:        []string{"sim-owned recipients with chosen label lists / injected wrap failure", "destination (write-call counter)", "crypto/rand.Reader (tape)"},
 		FaultKinds:  []string{"fault.wrap_failure", "fault.csprng_read_fails_once"},
-		Probes:      []string{"probe.equal_sets_different_order", "probe.proper_subset", "probe.disjoint", "probe.empty_vs_absent", "probe.scrypt_with_other", "probe.two_scrypt", "probe.refused_labels", "probe.refused_wrap_failure", "probe.accepted", "probe.fail_at_last_position", "probe.differ_at_last_position", "probe.repeated_label_same_multiset", "probe.repeated_label_sets_differ", "probe.repeated_label_ambiguous", "probe.refused_after_more_than_4KiB_of_header", "probe.labels_with_space_or_empty", "probe.plugin_recipient", "probe.plugin_recipient_from_identity"},
+		Probes:      []string{"probe.equal_sets_different_order", "probe.proper_subset", "probe.disjoint", "probe.empty_vs_absent", "probe.scrypt_with_other", "probe.two_scrypt", "probe.refused_labels", "probe.refused_wrap_failure", "probe.accepted", "probe.fail_at_last_position", "probe.differ_at_last_position", "probe.repeated_label_same_multiset", "probe.repeated_label_sets_differ", "probe.repeated_label_ambiguous", "probe.refused_after_more_than_4KiB_of_header", "probe.labels_with_space_or_empty", "probe.plugin_recipient", "probe.plugin_recipient_from_identity", "probe.embedded_scrypt_recipient"},
 	}
 }
 
@@ -290,14 +294,15 @@ func (C11) Generate(r *core.RNG, tier string, idx uint64) interface{} {
 	case 3: // disjoint
 		p.Recips[pos] = LRecip{Variant: "list", Labels: []string{"other", "labels"}, XKey: 3}
 	case 4: // scrypt in the list
-		p.Recips[pos] = LRecip{Native: &world.Key{T: "s", K: r.Intn(world.NPass), WF: 2}}
+		p.Recips[pos] = LRecip{Native: &world.Key{T: "s", K: r.Intn(world.NPass), WF: 2}, Wrapped: r.Chance(1, 3)}
 	case 5: // empty versus absent
 		p.Recips[pos] = LRecip{Variant: []string{"plain", "nil", "empty"}[r.Intn(3)], XKey: 4}
 	case 6: // native among labeled
 		p.Recips[pos] = LRecip{Native: &world.Key{T: []string{"x", "e", "r"}[r.Intn(3)], K: r.Intn(4)}}
 	case 7: // two scrypt
-		p.Recips[pos] = LRecip{Native: &world.Key{T: "s", K: 0, WF: 1}}
-		p.Recips = append(p.Recips, LRecip{Native: &world.Key{T: "s", K: 1, WF: 1}})
+		w := r.Chance(1, 2)
+		p.Recips[pos] = LRecip{Native: &world.Key{T: "s", K: 0, WF: 1}, Wrapped: w}
+		p.Recips = append(p.Recips, LRecip{Native: &world.Key{T: "s", K: 1, WF: 1}, Wrapped: w && r.Bool()})
 	}
 	if r.Chance(1, 6) {
 		// a plugin recipient somewhere in the list: it reports labels through the protocol and a wrap failure as an error stanza
@@ -390,6 +395,11 @@ func (e C11) Execute(plan interface{}, c *core.Ctx) *core.Verdict {
 	for i, lr := range p.Recips {
 		var set string
 		switch {
+		case lr.Native != nil && lr.Wrapped && lr.Native.T == "s":
+			recips = append(recips, embeddedScrypt{world.Recipient(*lr.Native).(*age.ScryptRecipient)})
+			c.Stats.Inc("probe.embedded_scrypt_recipient")
+			set = fmt.Sprintf("*random-%d", i)
+			skeleton += "s(embedded),"
 		case lr.Native != nil:
 			recips = append(recips, world.Recipient(*lr.Native))
 			if lr.Native.T == "s" {
